@@ -1,7 +1,7 @@
 (* DriverModel.v — the transcripts the correspondence check compares: for each family of driver case
    the model computes exactly the observables the C++ driver prints.  Executable; extracted. *)
 From Coq Require Import ZArith List Bool.
-From MdspanVerif Require Import MachInt ListAux Layouts Extents Convert Submdspan.
+From MdspanVerif Require Import MachInt ListAux Layouts Extents Convert View Submdspan.
 Import ListNotations.
 Local Open Scope Z_scope.
 
@@ -204,3 +204,114 @@ Definition s_chain (sv : mval) (levels : list (list slice)) : list tval :=
   | UB => [TZ UB]
   | Ok m => TZ (span_impl (mv_t sv) m) :: s_levels (mv_t sv) m (mv_pat sv) 0 levels
   end.
+
+(* ---- family A: element access --------------------------------------------------------------------- *)
+(* offsets through each access form; the heap (span + 2*8 cells, canary -1) after writing 100+k through the
+   view at point k; the values read back *)
+Fixpoint write_all (t : ity) (v : view) (pts : list (list Z)) (k : Z) (hp : heap) : res heap :=
+  match pts with
+  | [] => Ok hp
+  | p :: pts' => bind (view_write t FPack v p (100 + k) hp) (fun hp' => write_all t v pts' (k + 1) hp')
+  end.
+Definition a_access (sv : mval) (idxs : option (list (list Z))) : list tval :=
+  match mval_build sv with
+  | UB => [TZ UB]
+  | Ok m =>
+    let t := mv_t sv in
+    let pts := points (exts m) idxs in
+    let v := mkview 8 m AccDefault in
+    let offs f := rmap (map (fun e => default_address e - 8)) (seq_res (map (access t f v) pts)) in
+    match span_impl t m with
+    | UB => [TZ UB]
+    | Ok sp =>
+      let hp0 := repeat (-1) (Z.to_nat (sp + 16)) in
+      let hp := write_all t v pts 0 hp0 in
+      [ TL (offs FPack); TL (offs FArray); TL (offs FSpan);
+        TL (bind hp (fun h => if Z.of_nat (length h) <=? 96 then Ok h else Ok []));
+        TL (bind hp (fun h => seq_res (map (fun p => view_read t FPack v p h) pts))) ]
+    end
+  end.
+
+Fixpoint pick_dyn_vals (pat : pattern) (av : list Z) : list Z :=
+  match pat, av with
+  | p :: pat', v :: av' => if is_dyn p then v :: pick_dyn_vals pat' av' else pick_dyn_vals pat' av'
+  | _, _ => []
+  end.
+
+(* ---- family P: construction / copy / move / assign / swap / convert on a pool of views ------------- *)
+Inductive pop :=
+| PCtor (ty : nat) (kind : nat) (h : Z)       (* construct a view of type ty from (handle, ...) *)
+| PCopy (i : nat) | PMove (i : nat)
+| PAssign (i j : nat) | PMoveAssign (i j : nat) | PSwap (i j : nat)
+| PConv (i : nat) (ty : nat) | PAssignConv (i j : nat).
+
+(* a view type of the program: index type, layout kind, pattern, accessor kind (0 default, 1 stateful) *)
+Record ptype := mkptype { pt_t : ity; pt_lay : nat; pt_pat : pattern; pt_acc : nat }.
+Definition ptype_mtype (ty : ptype) : mtype := mkmt (pt_t ty) (pt_pat ty) (lkind_of_nat (pt_lay ty)) None.
+
+(* entries carry their program type index so that assignment-from-conversion knows its target *)
+Definition pentry := (nat * entry)%type.
+
+Definition p_mapping (ty : ptype) (es ss : list Z) : mapping :=
+  match pt_lay ty with 0%nat => MLeft es | 1%nat => MRight es | _ => MStride es ss end.
+
+(* constructor kinds: 0 (h, dynamic extents...)  1 (h, all extents...)  2 (h, array of dynamic)  3 (h, array of all)
+   5 (h, extents)  6 (h, mapping)  7 (h, mapping, accessor) *)
+Definition p_ctor (ty : ptype) (kind : nat) (h : Z) (es ss : list Z) : res entry :=
+  let t := pt_t ty in
+  let acc := if Nat.eqb (pt_acc ty) 0 then AccDefault else AccUser (10 + h) in
+  match kind with
+  | 0%nat | 2%nat => rmap (fun e => mkentry (en_t e) (en_pat e) (mkview h (v_map (en_view e)) acc))
+                      (ctor_from_values t (pt_pat ty) (fun x => p_mapping ty x ss) h false (pick_dyn_vals (pt_pat ty) es))
+  | 1%nat | 3%nat => rmap (fun e => mkentry (en_t e) (en_pat e) (mkview h (v_map (en_view e)) acc))
+                      (ctor_from_values t (pt_pat ty) (fun x => p_mapping ty x ss) h true es)
+  | _ => Ok (ctor_from_mapping t (pt_pat ty) h (p_mapping ty (ext_values t (pt_pat ty) es) ss) acc)
+  end.
+
+Definition p_step (tys : list ptype) (es ss : list Z) (p : list pentry) (o : pop) : res (list pentry) :=
+  let ents := map snd p in
+  let retag (l : list entry) := combine (map fst p) l in
+  match o with
+  | PCtor ty kind h =>
+      match nth_error tys ty with
+      | Some pty => rmap (fun e => p ++ [(ty, e)]) (p_ctor pty kind h es ss)
+      | None => UB
+      end
+  | PCopy i | PMove i => match nth_error p i with Some x => Ok (p ++ [x]) | None => UB end
+  | PAssign i j => rmap retag (vstep ents (OAssign i j))
+  | PMoveAssign i j => rmap retag (vstep ents (OMoveAssign i j))
+  | PSwap i j => rmap retag (vstep ents (OSwap i j))
+  | PConv i ty =>
+      match nth_error tys ty, nth_error ents i with
+      | Some pty, Some e => rmap (fun e' => p ++ [(ty, e')]) (convert_entry e (ptype_mtype pty))
+      | _, _ => UB
+      end
+  | PAssignConv i j =>
+      match nth_error p i, nth_error ents j with
+      | Some (ty, _), Some e =>
+          match nth_error tys ty with
+          | Some pty => rmap (fun e' => combine (map fst p) (set_entry ents i e')) (convert_entry e (ptype_mtype pty))
+          | None => UB
+          end
+      | _, _ => UB
+      end
+  end.
+
+Definition p_dump (p : list pentry) : res (list Z) :=
+  rmap (fun l => concat l ++ [0])
+    (seq_res (map (fun x : pentry =>
+       let e := snd x in let v := en_view e in
+       bind (strides_list (en_t e) (v_map v)) (fun st =>
+       Ok ([v_handle v; (match v_acc v with AccDefault => 0 | AccUser _ => 20 + v_handle v end);
+            (match v_acc v with AccDefault => 0 | AccUser k => k end)] ++ exts (v_map v) ++ st))) p)).
+
+Fixpoint p_run (tys : list ptype) (es ss : list Z) (p : list pentry) (ops : list pop) : list tval :=
+  match ops with
+  | [] => []
+  | o :: ops' =>
+      match p_step tys es ss p o with
+      | UB => [TZ UB]
+      | Ok p' => TL (p_dump p') :: p_run tys es ss p' ops'
+      end
+  end.
+Definition p_program (tys : list ptype) (es ss : list Z) (ops : list pop) : list tval := p_run tys es ss [] ops.
